@@ -39,6 +39,26 @@ type zzOp struct {
 	snapV      [2]int
 	snapN      int
 	start, end int
+	cb0, cb1   int // logical window in which the operation's callback ran (0: no callback ran)
+}
+
+// zzInCallback is called by every callback: it stamps the window and lets the other goroutine run in the middle of it
+func (o *zzOp) zzInCallback() {
+	zzClock++
+	o.cb0 = zzClock
+	symYield()
+	zzClock++
+	o.cb1 = zzClock
+}
+
+func (o *zzOp) mutates() bool {
+	switch o.kind {
+	case zzLoad, zzLength, zzLoadWithFunc, zzCopyData, zzRange2:
+		return false
+	case zzLoadOrStore, zzLoadOrStoreWithFunc:
+		return !o.ok // only when it stored: on a present key it is a read (and may take the read lock only)
+	}
+	return true
 }
 
 type zzSpec struct {
@@ -163,19 +183,19 @@ func zzRun(m *Map[uint64, int], o *zzOp) {
 	case zzLoadAndDelete:
 		o.res, o.ok = m.LoadAndDelete(o.key)
 	case zzLoadOrStoreWithFunc:
-		o.res, o.ok = m.LoadOrStoreWithFunc(o.key, func(v int) int { o.seen, o.seenOK = v, true; return v }, func() int { return o.val })
+		o.res, o.ok = m.LoadOrStoreWithFunc(o.key, func(v int) int { o.seen, o.seenOK = v, true; o.zzInCallback(); return v }, func() int { o.zzInCallback(); return o.val })
 	case zzReplaceWithFunc:
-		o.res, o.ok = m.ReplaceWithFunc(o.key, func(old int, loaded bool) (int, bool) { o.seen, o.seenOK = old, loaded; return o.val, false })
+		o.res, o.ok = m.ReplaceWithFunc(o.key, func(old int, loaded bool) (int, bool) { o.seen, o.seenOK = old, loaded; o.zzInCallback(); return o.val, false })
 	case zzLength:
 		o.res = m.Length()
 	case zzStoreWithFunc:
-		m.StoreWithFunc(o.key, func() int { return o.val })
+		m.StoreWithFunc(o.key, func() int { o.zzInCallback(); return o.val })
 	case zzLoadWithFunc:
-		o.res, o.ok = m.LoadWithFunc(o.key, func(v int) int { o.seen, o.seenOK = v, true; return v })
+		o.res, o.ok = m.LoadWithFunc(o.key, func(v int) int { o.seen, o.seenOK = v, true; o.zzInCallback(); return v })
 	case zzDeleteWithFunc:
-		m.DeleteWithFunc(o.key, func(v int) { o.seen, o.seenOK = v, true })
+		m.DeleteWithFunc(o.key, func(v int) { o.seen, o.seenOK = v, true; o.zzInCallback() })
 	case zzLoadAndDeleteWithFunc:
-		o.res, o.ok = m.LoadAndDeleteWithFunc(o.key, func(v int) int { o.seen, o.seenOK = v, true; return v })
+		o.res, o.ok = m.LoadAndDeleteWithFunc(o.key, func(v int) int { o.seen, o.seenOK = v, true; o.zzInCallback(); return v })
 	case zzLoadAndDeleteAll:
 		o.snapshot(m.LoadAndDeleteAll())
 	case zzCopyData:
@@ -286,6 +306,20 @@ func zzC14_map() {
 	wg.Wait()
 	symCover("joined")
 	symAssert(zzLinearizable(init, all), "the concurrent history has a linearisation that matches the sequential map")
+	// callbacks run inside the operation's critical section: no mutation of the map by the other goroutine begins
+	// and ends while a callback is running
+	atomicCb := true
+	for _, x := range a {
+		for _, y := range b {
+			if x.cb0 != 0 && y.mutates() && y.start > x.cb0 && y.end < x.cb1 {
+				atomicCb = false
+			}
+			if y.cb0 != 0 && x.mutates() && x.start > y.cb0 && x.end < y.cb1 {
+				atomicCb = false
+			}
+		}
+	}
+	symAssert(atomicCb, "a callback runs against the value actually in the map: no write by another goroutine takes effect while it runs")
 }
 
 // the clause singled out by the property: concurrent store-if-absent on an absent key
